@@ -11,7 +11,7 @@ Model of the off-circuit accumulator of the recursive verifier:
 
 `BTreeMap<String, _>` is a key-sorted association list (`String`'s order is the byte-wise
 lexicographic order in both languages; all names are ASCII). A Rust panic (`assert_eq!`,
-`unwrap_or_else(|| panic!(..))`, `accs[0]` on an empty slice) is the value `none`. Import-free.
+`unwrap_or_else(|| panic!(..))`) is the value `none`. Import-free.
 -/
 namespace MidnightZK.C15
 
@@ -185,12 +185,18 @@ def accumulateLoop (r : F) : Nat → Accumulator F G → List (Accumulator F G) 
 def accumulateHashInput (enc : G → List F) (accs : List (Accumulator F G)) : List F :=
   accs.flatMap (Accumulator.asPublicInput enc)
 
-/-- `Accumulator::accumulate(accs)` with the sponge `hash`; `none` = `accs[0]` on an empty
-slice. -/
+/-- The neutral accumulator: no terms and no fixed-base scalars on either side
+(`Msm::from_terms(&[], &[])` twice / `AssignedMsm::empty()` twice). -/
+def Accumulator.neutral : Accumulator F G := ⟨⟨[], []⟩, ⟨[], []⟩⟩
+
+/-- `Accumulator::accumulate(accs)` with the sponge `hash`. An empty slice returns the neutral
+accumulator before anything is hashed (commit f706bff; the pinned code evaluated `accs[0]` and
+panicked). The result type stays `Option` (`none` = panic) although no input produces `none` any
+more: `accumulate_total`. -/
 def Accumulator.accumulate (hash : List F → F) (enc : G → List F)
     (accs : List (Accumulator F G)) : Option (Accumulator F G) :=
   match accs with
-  | [] => none
+  | [] => some Accumulator.neutral
   | a :: rest => some (accumulateLoop (hash (accumulateHashInput enc accs)) 1 a rest)
 
 end
